@@ -229,6 +229,13 @@ def obligations(ctx, cfg):
            Handler(ctx, 'publisher', 'get_topic', req_sub_only('GetTopicRequest', 'topic'), which='topic'),
            Handler(ctx, 'publisher', 'delete_topic', req_sub_only('DeleteTopicRequest', 'topic'), which='topic'),
            ]
+    from props.races import TopicNamespaceRace, SubscriptionNamespaceRace
+    obs += [TopicNamespaceRace(ctx, ['create', 'create']), TopicNamespaceRace(ctx, ['create', 'delete']), TopicNamespaceRace(ctx, ['create', 'get']),
+            SubscriptionNamespaceRace(ctx, ['create', 'create']), SubscriptionNamespaceRace(ctx, ['create', 'delete']),
+            SubscriptionNamespaceRace(ctx, ['create', 'get'])]
+    if cfg['tier'] == 'thorough':
+        obs += [TopicNamespaceRace(ctx, ['create', 'create', 'delete']), TopicNamespaceRace(ctx, ['create', 'delete', 'get']),
+                SubscriptionNamespaceRace(ctx, ['create', 'create', 'delete']), SubscriptionNamespaceRace(ctx, ['create', 'delete', 'get'])]
     for o in obs[:2]:
         o.id = o.id.replace('C09.c', 'C10.a-create_topic').replace('C16.a-create_subscription', 'C10.a/b-create_subscription')
     return obs
